@@ -116,24 +116,38 @@ def judge_biglist(case, out):
     return None
 
 
+def _fr(fields, binary=None):
+    return {"fields": fields, "bin": binary, "binpos": (len(fields) if binary is not None else None)}
+
+
+LIST_REPLIES = [
+    {"form": "list", "frames": [_fr([("a", "1")]), _fr([("b", "2")]), _fr([("c", "3")])], "error": None, "partial": None},
+    {"form": "list", "frames": [_fr([]), _fr([]), _fr([("x", "y")])], "error": None, "partial": None},
+    {"form": "list", "frames": [_fr([("updating_db", "1")]), _fr([], b"abc"), _fr([("updating_db", "2")])], "error": None, "partial": None},
+    {"form": "list", "frames": [_fr([("a", "1")])], "error": (5, 1, "x", "boom"), "partial": None},
+    {"form": "list", "frames": [_fr([])], "error": None, "partial": None},
+]
+NEXT_REPLY = {"form": "single", "frames": [_fr([("volume", "5")])], "error": None, "partial": None}
+
+
 def interrupted_list_cases(ctx):
     """The reply to a list, at the protocol layer, with the receive interrupted (a read that would block; an async receive dropped
-    while it waits) after every line — in particular right after a list_OK: the frames already complete belong to the reply."""
+    while it waits) after every line — in particular right after a list_OK: the frames already complete belong to the reply.
+    -> [(case, expected outcomes without the interruptions)]"""
     import mpdgen as g
     rng = ctx.rng
-    cases = []
-    replies = [b"a: 1\nlist_OK\nb: 2\nlist_OK\nc: 3\nlist_OK\nOK\n", b"list_OK\nlist_OK\nx: y\nlist_OK\nOK\n",
-               b"updating_db: 1\nlist_OK\nbinary: 3\nabc\nlist_OK\nupdating_db: 2\nlist_OK\nOK\n", b"a: 1\nlist_OK\nACK [5@1] {x} boom\n",
-               b"list_OK\nOK\n"]
-    for rp in replies:
-        st = rp + b"volume: 5\nOK\n"
-        cuts = [i + 1 for i, c in enumerate(st) if c == 10] + [len(b"a: 1\nlis"), 3]
+    out = []
+    for rp in LIST_REPLIES:
+        st = g.enc_response(rp) + g.enc_response(NEXT_REPLY)
+        want = [g.show_response(rp), g.show_response(NEXT_REPLY), "eof"]
+        cuts = [i + 1 for i, c in enumerate(st) if c == 10] + [3, 8]
         for k in sorted(set(c for c in cuts if 0 < c < len(st))):
             for fl in "ab":
-                cases.append(" ".join(["recv", fl, "0", "eof", hexs(st[:k]), "!", hexs(st[k:])]))
+                out.append((" ".join(["recv", fl, "0", "eof", hexs(st[:k]), "!", hexs(st[k:])]), want))
                 j = rng.randrange(1, k + 1)
-                cases.append(" ".join(["recv", fl, "0", "eof", hexs(st[:j]), hexs(st[j:k]), "!", hexs(st[k:])] if j < k else ["recv", fl, "0", "eof", hexs(st[:k]), "!", "!", hexs(st[k:])]))
-    return cases
+                toks = ["recv", fl, "0", "eof", hexs(st[:j]), hexs(st[j:k]), "!", hexs(st[k:])] if j < k else ["recv", fl, "0", "eof", hexs(st[:k]), "!", "!", hexs(st[k:])]
+                out.append((" ".join(toks), want))
+    return out
 
 
 def run(ctx, only=None):
@@ -198,12 +212,12 @@ def run(ctx, only=None):
             if m:
                 fails.append(Failure(c, m, extra={"plain": True}))
         inter = interrupted_list_cases(ctx)
-        impl_i, model_i, dis_i = connlib.run_cases(ctx, inter)
+        impl_i, model_i, dis_i = connlib.run_cases(ctx, [c for c, _ in inter])
         dis += dis_i
-        for c, o in zip(inter, impl_i):
+        for (c, want), o in zip(inter, impl_i):
             outs = [x for x in o.split(" | ") if x != "io"]
-            if len(outs) < 2 or not outs[1].startswith("resp[(766f6c756d65:35)"):
-                fails.append(Failure(c, f"the reply to a list, its receive interrupted: {connlib.describe(c)[:300]}\n  the response after it must be the one the server sent next (volume: 5); got {o[:400]}", extra={"plain": True}))
+            if outs != want:
+                fails.append(Failure(c, f"the reply to a list, its receive interrupted and retried: {connlib.describe(c)[:300]}\n  expected {' | '.join(want)[:300]}\n  got      {o[:400]}", extra={"plain": True}))
         extra_n = len(big) + len(inter)
     return finish(
         ctx, evaluations=len(scheds) + extra_n, distinct_nontrivial=nontrivial + extra_n,
